@@ -94,6 +94,11 @@ CHECKS = {
                      "cell bytes, header fields / hash / file header / footer arrays are carried and conform to the source's format version; "
                      "unsupported inputs are refused without output. Bounded model checking.",
                 design='DESIGN.md 7/C12'),
+    'C19': dict(text="define_blockshape_3d/_2d run with one blockshape entry a solver variable in {-1} u [1, 8192], the other two enumerated from "
+                     "19 values and bits_per_voxel from the property's list (ints, floats, strings): whenever the real function returns, z3 shows the "
+                     "resolved setting satisfies the specification's validity predicate and keeps the given entries; every valid request is accepted. "
+                     "Faithfulness of each valid layout is the subject of C01-C03 (thorough tiers enumerate all 401 layouts). Bounded model checking.",
+                design='DESIGN.md 7/C19'),
 }
 
 NOT_YET = "check not built yet in this session (work in progress; see DESIGN.md section 11 build order)"
